@@ -526,13 +526,17 @@ func (c *Conn) Parse(data []byte) (retErr error) {
 								return
 							}
 						}
-						c.msgType = 0
-						c.compress = false
-						c.expectingFragments = false
 						isDataMessage = true
-					} else {
-						c.expectingFragments = true
 					}
+				}
+				// the per-message state is kept whichever handlers are installed:
+				// validFrame and the frame handler rely on it as well.
+				if fin {
+					c.msgType = 0
+					c.compress = false
+					c.expectingFragments = false
+				} else {
+					c.expectingFragments = true
 				}
 			case PingMessage, PongMessage, CloseMessage:
 				isProtocolMessage = true
@@ -1139,6 +1143,10 @@ func (c *Conn) validFrame(opcode MessageType, fin, res1, res2, res3, expectingFr
 	}
 	if expectingFragments && (opcode == TextMessage || opcode == BinaryMessage) {
 		return ErrFragmentsShouldNotHaveBinaryOrTextMessage
+	}
+	if !expectingFragments && opcode == FragmentMessage {
+		// a continuation frame with no message to continue.
+		return ErrInvalidFragmentMessage
 	}
 	return nil
 }
